@@ -157,7 +157,8 @@ def explore_shape(identity, shape, tier, st, flips):
 
     # bound 0
     ok = True
-    for mode in ("fp", "zeros", "ones"):
+    has_text = any(o.typ == "STR" for o in occs)
+    for mode in ("fp", "zeros", "ones") + (("nul", "nulmix") if has_text else ()):
         o2, _ = R.layout(identity, R.Valuation(shape, mode))
         for pad, extra in ((0, b""), (1, b""), (0, b"\x00"), (0, b"\xff"), (1, b"\xff\x00" * 4 + b"\xff")):
             ok &= run({**base_case, "mode": mode, "pad": pad, "extra": extra}, o2, pad, extra,
